@@ -6,6 +6,7 @@ use quote::{quote, ToTokens, TokenStreamExt};
 use syn::{parse_quote, Meta};
 
 use crate::ast::NestedMeta;
+use crate::util::path_to_string;
 use crate::{Error, FromMeta, Result};
 
 /// Receiver struct for shape validation. Shape validation allows a deriving type
@@ -34,30 +35,42 @@ impl Default for DeriveInputShapeSet {
 
 impl FromMeta for DeriveInputShapeSet {
     fn from_list(items: &[NestedMeta]) -> Result<Self> {
+        let mut errors = Error::accumulator();
         let mut new = DeriveInputShapeSet::default();
         for item in items {
             if let NestedMeta::Meta(Meta::Path(ref path)) = *item {
-                let ident = &path.segments.first().unwrap().ident;
+                // A shape word is a single identifier; `struct_named::x` is not `struct_named`.
+                let ident = match path.get_ident() {
+                    Some(ident) => ident,
+                    None => {
+                        errors.push(Error::unknown_value(&path_to_string(path)).with_span(path));
+                        continue;
+                    }
+                };
                 let word = ident.to_string();
                 if word == "any" {
                     new.any = true;
                 } else if word.starts_with("enum_") {
-                    new.enum_values
-                        .set_word(&word)
-                        .map_err(|e| e.with_span(&ident))?;
+                    errors.handle(
+                        new.enum_values
+                            .set_word(&word)
+                            .map_err(|e| e.with_span(&ident)),
+                    );
                 } else if word.starts_with("struct_") {
-                    new.struct_values
-                        .set_word(&word)
-                        .map_err(|e| e.with_span(&ident))?;
+                    errors.handle(
+                        new.struct_values
+                            .set_word(&word)
+                            .map_err(|e| e.with_span(&ident)),
+                    );
                 } else {
-                    return Err(Error::unknown_value(&word).with_span(&ident));
+                    errors.push(Error::unknown_value(&word).with_span(&ident));
                 }
             } else {
-                return Err(Error::unsupported_format("non-word").with_span(item));
+                errors.push(Error::unsupported_format("non-word").with_span(item));
             }
         }
 
-        Ok(new)
+        errors.finish_with(new)
     }
 }
 
@@ -170,7 +183,15 @@ impl FromMeta for DataShape {
 
         for item in items {
             if let NestedMeta::Meta(Meta::Path(ref path)) = *item {
-                errors.handle(new.set_word(&path.segments.first().unwrap().ident.to_string()));
+                // A shape word is a single identifier; `named::x` is not `named`.
+                match path.get_ident() {
+                    Some(ident) => {
+                        errors.handle(new.set_word(&ident.to_string()));
+                    }
+                    None => {
+                        errors.push(Error::unknown_value(&path_to_string(path)).with_span(path));
+                    }
+                }
             } else {
                 errors.push(Error::unsupported_format("non-word").with_span(item));
             }
